@@ -1,30 +1,94 @@
 // C03 (B-harnesses): the 6 unary_arithmetic productions with MUL/IMUL/DIV/IDIV (divide error -> INT 0).
 use crate::{vassert, vassume, vcell, vcover, vsym};
 
-unop!(c03b_unary_r8, "C03b.unary.r8", u8, 8, nt_byte_unary_arithmetic, NT_byte_unary_arithmetic_N, NT_byte_unary_arithmetic_TEXT, NT_byte_unary_arithmetic_ID, dst_reg8,
+unop!(c03b_unary_r8_k0, "C03b.unary.r8", u8, 8, nt_byte_unary_arithmetic, NT_byte_unary_arithmetic_N, NT_byte_unary_arithmetic_TEXT, NT_byte_unary_arithmetic_ID, dst_reg8_k0,
+    |id: u8| !(id == ID_dec || id == ID_inc || id == ID_neg), no,
+    |vm: &mut VM, ctx: &mut Context, f, d: &Op| p_unary_arithmetic__byte_unary_arithmetic__byte_reg(CUR, vm, ctx, "", (0, f, 0), (0, d.b, 0)));
+unop!(c03b_unary_r8_k1, "C03b.unary.r8", u8, 8, nt_byte_unary_arithmetic, NT_byte_unary_arithmetic_N, NT_byte_unary_arithmetic_TEXT, NT_byte_unary_arithmetic_ID, dst_reg8_k1,
+    |id: u8| !(id == ID_dec || id == ID_inc || id == ID_neg), no,
+    |vm: &mut VM, ctx: &mut Context, f, d: &Op| p_unary_arithmetic__byte_unary_arithmetic__byte_reg(CUR, vm, ctx, "", (0, f, 0), (0, d.b, 0)));
+unop!(c03b_unary_r8_k2, "C03b.unary.r8", u8, 8, nt_byte_unary_arithmetic, NT_byte_unary_arithmetic_N, NT_byte_unary_arithmetic_TEXT, NT_byte_unary_arithmetic_ID, dst_reg8_k2,
+    |id: u8| !(id == ID_dec || id == ID_inc || id == ID_neg), no,
+    |vm: &mut VM, ctx: &mut Context, f, d: &Op| p_unary_arithmetic__byte_unary_arithmetic__byte_reg(CUR, vm, ctx, "", (0, f, 0), (0, d.b, 0)));
+unop!(c03b_unary_r8_k3, "C03b.unary.r8", u8, 8, nt_byte_unary_arithmetic, NT_byte_unary_arithmetic_N, NT_byte_unary_arithmetic_TEXT, NT_byte_unary_arithmetic_ID, dst_reg8_k3,
+    |id: u8| !(id == ID_dec || id == ID_inc || id == ID_neg), no,
+    |vm: &mut VM, ctx: &mut Context, f, d: &Op| p_unary_arithmetic__byte_unary_arithmetic__byte_reg(CUR, vm, ctx, "", (0, f, 0), (0, d.b, 0)));
+unop!(c03b_unary_r8_k4, "C03b.unary.r8", u8, 8, nt_byte_unary_arithmetic, NT_byte_unary_arithmetic_N, NT_byte_unary_arithmetic_TEXT, NT_byte_unary_arithmetic_ID, dst_reg8_k4,
+    |id: u8| !(id == ID_dec || id == ID_inc || id == ID_neg), no,
+    |vm: &mut VM, ctx: &mut Context, f, d: &Op| p_unary_arithmetic__byte_unary_arithmetic__byte_reg(CUR, vm, ctx, "", (0, f, 0), (0, d.b, 0)));
+unop!(c03b_unary_r8_k5, "C03b.unary.r8", u8, 8, nt_byte_unary_arithmetic, NT_byte_unary_arithmetic_N, NT_byte_unary_arithmetic_TEXT, NT_byte_unary_arithmetic_ID, dst_reg8_k5,
+    |id: u8| !(id == ID_dec || id == ID_inc || id == ID_neg), no,
+    |vm: &mut VM, ctx: &mut Context, f, d: &Op| p_unary_arithmetic__byte_unary_arithmetic__byte_reg(CUR, vm, ctx, "", (0, f, 0), (0, d.b, 0)));
+unop!(c03b_unary_r8_k6, "C03b.unary.r8", u8, 8, nt_byte_unary_arithmetic, NT_byte_unary_arithmetic_N, NT_byte_unary_arithmetic_TEXT, NT_byte_unary_arithmetic_ID, dst_reg8_k6,
+    |id: u8| !(id == ID_dec || id == ID_inc || id == ID_neg), no,
+    |vm: &mut VM, ctx: &mut Context, f, d: &Op| p_unary_arithmetic__byte_unary_arithmetic__byte_reg(CUR, vm, ctx, "", (0, f, 0), (0, d.b, 0)));
+unop!(c03b_unary_r8_k7, "C03b.unary.r8", u8, 8, nt_byte_unary_arithmetic, NT_byte_unary_arithmetic_N, NT_byte_unary_arithmetic_TEXT, NT_byte_unary_arithmetic_ID, dst_reg8_k7,
+    |id: u8| !(id == ID_dec || id == ID_inc || id == ID_neg), no,
+    |vm: &mut VM, ctx: &mut Context, f, d: &Op| p_unary_arithmetic__byte_unary_arithmetic__byte_reg(CUR, vm, ctx, "", (0, f, 0), (0, d.b, 0)));
+frame_only_un!(c03b_unary_r8_frame, "C03b.unary.r8", nt_byte_unary_arithmetic, NT_byte_unary_arithmetic_N, NT_byte_unary_arithmetic_ID, dst_reg8,
     |id: u8| !(id == ID_dec || id == ID_inc || id == ID_neg),
     |vm: &mut VM, ctx: &mut Context, f, d: &Op| p_unary_arithmetic__byte_unary_arithmetic__byte_reg(CUR, vm, ctx, "", (0, f, 0), (0, d.b, 0)));
 unop!(c03b_unary_m8, "C03b.unary.m8", u8, 8, nt_byte_unary_arithmetic, NT_byte_unary_arithmetic_N, NT_byte_unary_arithmetic_TEXT, NT_byte_unary_arithmetic_ID, opnd_mem,
-    |id: u8| !(id == ID_dec || id == ID_inc || id == ID_neg),
+    |id: u8| !(id == ID_dec || id == ID_inc || id == ID_neg), yes,
     |vm: &mut VM, ctx: &mut Context, f, d: &Op| p_unary_arithmetic__byte_unary_arithmetic__T_byte__memory_addr(CUR, vm, ctx, "", (0, f, 0), KB, (0, d.m, 0)));
 unop!(c03b_unary_l8, "C03b.unary.l8", u8, 8, nt_byte_unary_arithmetic, NT_byte_unary_arithmetic_N, NT_byte_unary_arithmetic_TEXT, NT_byte_unary_arithmetic_ID, opnd_lab,
-    |id: u8| !(id == ID_dec || id == ID_inc || id == ID_neg),
+    |id: u8| !(id == ID_dec || id == ID_inc || id == ID_neg), yes,
     |vm: &mut VM, ctx: &mut Context, f, d: &Op| p_unary_arithmetic__byte_unary_arithmetic__byte_label(CUR, vm, ctx, "", (0, f, 0), (0, d.m, 0)));
-unop!(c03b_unary_r16, "C03b.unary.r16", u16, 16, nt_word_unary_arithmetic, NT_word_unary_arithmetic_N, NT_word_unary_arithmetic_TEXT, NT_word_unary_arithmetic_ID, dst_reg16,
+unop!(c03b_unary_r16_k0, "C03b.unary.r16", u16, 16, nt_word_unary_arithmetic, NT_word_unary_arithmetic_N, NT_word_unary_arithmetic_TEXT, NT_word_unary_arithmetic_ID, dst_reg16_k0,
+    |id: u8| !(id == ID_dec || id == ID_inc || id == ID_neg), no,
+    |vm: &mut VM, ctx: &mut Context, f, d: &Op| p_unary_arithmetic__word_unary_arithmetic__word_reg(CUR, vm, ctx, "", (0, f, 0), (0, d.w, 0)));
+unop!(c03b_unary_r16_k1, "C03b.unary.r16", u16, 16, nt_word_unary_arithmetic, NT_word_unary_arithmetic_N, NT_word_unary_arithmetic_TEXT, NT_word_unary_arithmetic_ID, dst_reg16_k1,
+    |id: u8| !(id == ID_dec || id == ID_inc || id == ID_neg), no,
+    |vm: &mut VM, ctx: &mut Context, f, d: &Op| p_unary_arithmetic__word_unary_arithmetic__word_reg(CUR, vm, ctx, "", (0, f, 0), (0, d.w, 0)));
+unop!(c03b_unary_r16_k2, "C03b.unary.r16", u16, 16, nt_word_unary_arithmetic, NT_word_unary_arithmetic_N, NT_word_unary_arithmetic_TEXT, NT_word_unary_arithmetic_ID, dst_reg16_k2,
+    |id: u8| !(id == ID_dec || id == ID_inc || id == ID_neg), no,
+    |vm: &mut VM, ctx: &mut Context, f, d: &Op| p_unary_arithmetic__word_unary_arithmetic__word_reg(CUR, vm, ctx, "", (0, f, 0), (0, d.w, 0)));
+unop!(c03b_unary_r16_k3, "C03b.unary.r16", u16, 16, nt_word_unary_arithmetic, NT_word_unary_arithmetic_N, NT_word_unary_arithmetic_TEXT, NT_word_unary_arithmetic_ID, dst_reg16_k3,
+    |id: u8| !(id == ID_dec || id == ID_inc || id == ID_neg), no,
+    |vm: &mut VM, ctx: &mut Context, f, d: &Op| p_unary_arithmetic__word_unary_arithmetic__word_reg(CUR, vm, ctx, "", (0, f, 0), (0, d.w, 0)));
+unop!(c03b_unary_r16_k4, "C03b.unary.r16", u16, 16, nt_word_unary_arithmetic, NT_word_unary_arithmetic_N, NT_word_unary_arithmetic_TEXT, NT_word_unary_arithmetic_ID, dst_reg16_k4,
+    |id: u8| !(id == ID_dec || id == ID_inc || id == ID_neg), no,
+    |vm: &mut VM, ctx: &mut Context, f, d: &Op| p_unary_arithmetic__word_unary_arithmetic__word_reg(CUR, vm, ctx, "", (0, f, 0), (0, d.w, 0)));
+unop!(c03b_unary_r16_k5, "C03b.unary.r16", u16, 16, nt_word_unary_arithmetic, NT_word_unary_arithmetic_N, NT_word_unary_arithmetic_TEXT, NT_word_unary_arithmetic_ID, dst_reg16_k5,
+    |id: u8| !(id == ID_dec || id == ID_inc || id == ID_neg), no,
+    |vm: &mut VM, ctx: &mut Context, f, d: &Op| p_unary_arithmetic__word_unary_arithmetic__word_reg(CUR, vm, ctx, "", (0, f, 0), (0, d.w, 0)));
+unop!(c03b_unary_r16_k6, "C03b.unary.r16", u16, 16, nt_word_unary_arithmetic, NT_word_unary_arithmetic_N, NT_word_unary_arithmetic_TEXT, NT_word_unary_arithmetic_ID, dst_reg16_k6,
+    |id: u8| !(id == ID_dec || id == ID_inc || id == ID_neg), no,
+    |vm: &mut VM, ctx: &mut Context, f, d: &Op| p_unary_arithmetic__word_unary_arithmetic__word_reg(CUR, vm, ctx, "", (0, f, 0), (0, d.w, 0)));
+unop!(c03b_unary_r16_k7, "C03b.unary.r16", u16, 16, nt_word_unary_arithmetic, NT_word_unary_arithmetic_N, NT_word_unary_arithmetic_TEXT, NT_word_unary_arithmetic_ID, dst_reg16_k7,
+    |id: u8| !(id == ID_dec || id == ID_inc || id == ID_neg), no,
+    |vm: &mut VM, ctx: &mut Context, f, d: &Op| p_unary_arithmetic__word_unary_arithmetic__word_reg(CUR, vm, ctx, "", (0, f, 0), (0, d.w, 0)));
+frame_only_un!(c03b_unary_r16_frame, "C03b.unary.r16", nt_word_unary_arithmetic, NT_word_unary_arithmetic_N, NT_word_unary_arithmetic_ID, dst_reg16,
     |id: u8| !(id == ID_dec || id == ID_inc || id == ID_neg),
     |vm: &mut VM, ctx: &mut Context, f, d: &Op| p_unary_arithmetic__word_unary_arithmetic__word_reg(CUR, vm, ctx, "", (0, f, 0), (0, d.w, 0)));
 unop!(c03b_unary_m16, "C03b.unary.m16", u16, 16, nt_word_unary_arithmetic, NT_word_unary_arithmetic_N, NT_word_unary_arithmetic_TEXT, NT_word_unary_arithmetic_ID, opnd_mem,
-    |id: u8| !(id == ID_dec || id == ID_inc || id == ID_neg),
+    |id: u8| !(id == ID_dec || id == ID_inc || id == ID_neg), yes,
     |vm: &mut VM, ctx: &mut Context, f, d: &Op| p_unary_arithmetic__word_unary_arithmetic__T_word__memory_addr(CUR, vm, ctx, "", (0, f, 0), KW, (0, d.m, 0)));
 unop!(c03b_unary_l16, "C03b.unary.l16", u16, 16, nt_word_unary_arithmetic, NT_word_unary_arithmetic_N, NT_word_unary_arithmetic_TEXT, NT_word_unary_arithmetic_ID, opnd_lab,
-    |id: u8| !(id == ID_dec || id == ID_inc || id == ID_neg),
+    |id: u8| !(id == ID_dec || id == ID_inc || id == ID_neg), yes,
     |vm: &mut VM, ctx: &mut Context, f, d: &Op| p_unary_arithmetic__word_unary_arithmetic__word_label(CUR, vm, ctx, "", (0, f, 0), (0, d.m, 0)));
 
 pub const TABLE: &[(&str, fn())] = &[
-    ("c03b_unary_r8", c03b_unary_r8),
+    ("c03b_unary_r8_k0", c03b_unary_r8_k0),
+    ("c03b_unary_r8_k1", c03b_unary_r8_k1),
+    ("c03b_unary_r8_k2", c03b_unary_r8_k2),
+    ("c03b_unary_r8_k3", c03b_unary_r8_k3),
+    ("c03b_unary_r8_k4", c03b_unary_r8_k4),
+    ("c03b_unary_r8_k5", c03b_unary_r8_k5),
+    ("c03b_unary_r8_k6", c03b_unary_r8_k6),
+    ("c03b_unary_r8_k7", c03b_unary_r8_k7),
+    ("c03b_unary_r8_frame", c03b_unary_r8_frame),
     ("c03b_unary_m8", c03b_unary_m8),
     ("c03b_unary_l8", c03b_unary_l8),
-    ("c03b_unary_r16", c03b_unary_r16),
+    ("c03b_unary_r16_k0", c03b_unary_r16_k0),
+    ("c03b_unary_r16_k1", c03b_unary_r16_k1),
+    ("c03b_unary_r16_k2", c03b_unary_r16_k2),
+    ("c03b_unary_r16_k3", c03b_unary_r16_k3),
+    ("c03b_unary_r16_k4", c03b_unary_r16_k4),
+    ("c03b_unary_r16_k5", c03b_unary_r16_k5),
+    ("c03b_unary_r16_k6", c03b_unary_r16_k6),
+    ("c03b_unary_r16_k7", c03b_unary_r16_k7),
+    ("c03b_unary_r16_frame", c03b_unary_r16_frame),
     ("c03b_unary_m16", c03b_unary_m16),
     ("c03b_unary_l16", c03b_unary_l16),
 ];
